@@ -446,7 +446,7 @@ def run(tier, seed):
                 "stream: %d sequences of 1-3 masked client frames, every segmentation for N<=18 bytes (2^(N-1)), <=%d cuts otherwise; states = distinct (sequence, #cuts, #frames delivered)" % (
                     len(ls), "" if tier == "quick" else ", every length 0..2000, 65000..66200, every 97th to 70000", len(frame_sequences(tier)), 2 if tier == "quick" else 3),
         "exhaustive": True,
-        "samples": _samples(tier),
+        "samples": core.safe_samples(lambda: _samples(tier)),
     }
     rep.assumptions = ["client frames are produced by the reference encoder (masked, fin=1); fragmentation (fin=0) and control-frame interleaving are outside the statement"]
     return rep
